@@ -493,7 +493,12 @@ class Rmcp(object):
         req.target = self.host_target
         req.authentication.type = session.auth_type
         if session._auth_username:
-            req.user_name = session._auth_username.ljust(16, '\x00')
+            # str or bytes, like the password; padded after encoding so that
+            # the field is 16 bytes
+            user_name = session._auth_username
+            if isinstance(user_name, str):
+                user_name = user_name.encode()
+            req.user_name = user_name.ljust(16, b'\x00')
         rsp = self.send_and_receive(req)
         check_rsp_completion_code(rsp)
         return rsp
